@@ -216,6 +216,35 @@ class Ctx:
         return 1 if self.violations else 0
 
 
+FORBIDDEN = re.compile(r"\b(Admitted|admit|Axiom|Axioms|Parameter|Parameters|Conjecture|Admit\s+Obligations|bypass_check|Unset\s+Guard\s+Checking|Unset\s+Positivity\s+Checking|Unset\s+Universe\s+Checking|type-in-type|impredicative-set)\b")
+
+
+def development_gate():
+    """no Axiom/Parameter/Admitted/admit, no switched-off kernel checks, Variable/Hypothesis only inside sections"""
+    problems = []
+    files = glob.glob(os.path.join(COQ, "theories", "*.v")) + glob.glob(os.path.join(COQ, "theories", "Properties", "*.v"))
+    for f in sorted(files):
+        if os.path.basename(f) == "Generated.v":
+            continue
+        depth = 0
+        text = open(f).read()
+        # drop comments (no nesting tricks are used in this development)
+        text = re.sub(r"\(\*.*?\*\)", lambda m: "\n" * m.group(0).count("\n"), text, flags=re.S)
+        for i, line in enumerate(text.split("\n"), 1):
+            if re.match(r"\s*Section\s+\w+", line):
+                depth += 1
+            if re.match(r"\s*End\s+\w+\s*\.", line) and depth > 0:
+                depth -= 1
+            if FORBIDDEN.search(line):
+                problems.append("%s:%d: %s" % (os.path.relpath(f, VERIF), i, line.strip()[:120]))
+            if depth == 0 and re.match(r"\s*(Variable|Variables|Hypothesis|Hypotheses|Context)\b", line):
+                problems.append("%s:%d: outside a section: %s" % (os.path.relpath(f, VERIF), i, line.strip()[:120]))
+    for f in [os.path.join(COQ, "_CoqProject")]:
+        if re.search(r"type-in-type|impredicative-set|-vos|-vok", open(f).read()):
+            problems.append("_CoqProject passes a forbidden flag")
+    return problems
+
+
 def prepare(ctx, need_harness=True, need_ocaml=True, race=False):
     """translator + full Coq build (+ OCaml model, Go harness). Returns dict of build facts."""
     facts = {}
@@ -250,6 +279,19 @@ def prepare(ctx, need_harness=True, need_ocaml=True, race=False):
     ctx.cov["trusted_base"] += ["Coq 8.16.1 kernel incl. vm_compute (no native_compute)"] + assumptions
     ctx.cov["coq_build_s"] = round(dt + dt2, 1)
     ctx.cov["repo_state"] = repo_state()
+    if ctx.tier == "thorough" and ok:
+        # independent re-check of the compiled property file and everything it depends on
+        rc3, out3, dt3 = sh(["timeout", "2400", "coqchk", "-silent", "-o", "-R", "theories", "KMIP", "KMIP.Properties.%s" % ctx.pid], cwd=COQ, timeout=2500)
+        ctx.cov["coqchk"] = {"cmd": "coqchk -silent -o -R theories KMIP KMIP.Properties.%s" % ctx.pid, "exit": rc3, "seconds": round(dt3, 1),
+                             "report": [l.strip() for l in out3.strip().splitlines()[-12:] if l.strip()]}
+        ctx.cov["trusted_base"].append("coqchk (independent checker) exit %d; axioms reported: %s" % (
+            rc3, "; ".join(l.strip() for l in out3.splitlines() if "Axioms" in l) or "?"))
+        if rc3 != 0:
+            ctx.violation("coqchk", {"what": "coqchk does not accept the compiled development", "log": tail(out3, 30)}, found_input=False)
+    gate = development_gate()
+    ctx.cov["development_gate"] = "clean: no Axiom/Parameter/Conjecture/Admitted/admit, no disabled kernel checks, Variable/Hypothesis only inside sections" if not gate else gate
+    if gate:
+        ctx.violation("development-gate", {"what": "the Coq development violates its own rules", "problems": gate}, found_input=False)
     return facts
 
 
